@@ -58,6 +58,8 @@ const ISOLATED: &[(&str, &str)] = &[
     ("alias-self-through-dictionary-value", "module M\ntypealias A = Dictionary<int32, A>\n"),
     ("alias-self-through-result", "module M\ntypealias A = Result<A, int32>\n"),
     ("alias-2-cycle-through-sequences", "module M\ntypealias A = Sequence<B>\ntypealias B = Sequence<A>\n"),
+    ("alias-chain-into-2-cycle-used", "module M\ntypealias A = B\ntypealias B = C\ntypealias C = B\nstruct S { a: A }\n"),
+    ("alias-chain-into-self-cycle-used", "module M\ntypealias A = B\ntypealias B = B\ninterface I { op(a: A) }\n"),
     ("alias-cycle-used-by-struct", "module M\ntypealias A = Sequence<A>\nstruct S { a: A }\n"),
     ("struct-self", "module M\nstruct S { s: S }\n"),
     ("struct-self-through-sequence", "module M\nstruct S { s: Sequence<S> }\n"),
@@ -91,9 +93,9 @@ pub fn run() -> i32 {
     let mut rep = Report::new(
         "lexical",
         if deep {
-            "DEEP: every string of length <= 2 over 46 characters + length 3 over 16 of them, in 12 contexts (compile + render); token soup of <= 3 tokens over 50 tokens in 6 contexts; 20 cycle programs in child processes; only a panic/abort/hang counts"
+            "DEEP: every string of length <= 2 over 46 characters + length 3 over 16 of them, in 12 contexts (compile + render); token soup of <= 3 tokens over 50 tokens in 6 contexts; 22 cycle programs in child processes; only a panic/abort/hang counts"
         } else {
-            "every string of length <= 2 over 46 characters (all Unicode white space, the lexers' punctuation, multi-byte letters) in 12 contexts (compile + render); token soup of <= 2 tokens over 50 tokens in 6 contexts; 20 cycle programs in child processes; only a panic/abort/hang counts"
+            "every string of length <= 2 over 46 characters (all Unicode white space, the lexers' punctuation, multi-byte letters) in 12 contexts (compile + render); token soup of <= 2 tokens over 50 tokens in 6 contexts; 22 cycle programs in child processes; only a panic/abort/hang counts"
         },
     );
     let mut fillers: Vec<String> = vec![String::new()];
